@@ -250,6 +250,10 @@ func propC10(w *World, r *Report) {
 	r.Floor("worklist", 15)
 	r.Floor("gidsort", 12)
 	checkNewGidOk(w, r, fns)
+	checkFDIndex(w, r)
+	RunFlagReduce(w, r, w.LibFuncs(), "library")
+	r.Floor("flagreduce", 25)
+	RunControl(r, "flagreduce", "ctlFlagReduce", func(cw *World, cr *Report, cf []*ssa.Function) { RunFlagReduce(cw, cr, cf, "controls") })
 }
 
 // checkNewGidOk: the old->new glyph map of the subsetter has no entry for a
@@ -819,4 +823,120 @@ func checkClosureFirst(w *World, r *Report) {
 		}
 	}
 	r.Floor("closurefirst", 2)
+}
+
+// RunFlagReduce: a boolean that summarises a loop ("does any element need
+// work?") has to accumulate: `flag = flag || cond` or `if cond { flag = true }`.
+// A plain assignment `flag = cond` in the loop body lets the last element
+// alone decide.  Reported where a boolean loop-carried variable is
+// overwritten on every iteration by a value that does not depend on its
+// previous value and is then read after the loop and not inside it.
+func RunFlagReduce(w *World, r *Report, fns []*ssa.Function, scopeName string) {
+	r.Rule("flagreduce: no boolean variable that is read after a loop is overwritten in every iteration of that loop by a value independent of its previous value (the last element alone would decide); accumulating forms (flag = flag || c, if c { flag = true }) are what a summary of all elements needs")
+	n := 0
+	for _, fn := range fns {
+		all := append([]*ssa.Function{fn}, fn.AnonFuncs...)
+		for _, f := range all {
+			loops := naturalLoops(f)
+			for _, l := range loops {
+				for _, in := range l.head.Instrs {
+					ph, ok := in.(*ssa.Phi)
+					if !ok {
+						break
+					}
+					bt, ok := ph.Type().Underlying().(*types.Basic)
+					if !ok || bt.Kind() != types.Bool {
+						continue
+					}
+					n++
+					key := r.MkKey("flagreduce", fnName(f), "boolean "+ph.Comment+" carried around a loop")
+					overwritten := false
+					for i, e := range ph.Edges {
+						if !l.body[l.head.Preds[i]] {
+							continue
+						}
+						if _, isC := e.(*ssa.Const); isC {
+							continue
+						}
+						if e == ssa.Value(ph) {
+							continue
+						}
+						if !backSlice(e)[ph] {
+							overwritten = true
+						}
+					}
+					usedInside, usedAfter := false, false
+					if ph.Referrers() != nil {
+						for _, ref := range *ph.Referrers() {
+							if ref.Block() == nil {
+								continue
+							}
+							if p2, isPhi := ref.(*ssa.Phi); isPhi && l.body[p2.Block()] {
+								// merging it back is not a read
+								continue
+							}
+							if l.body[ref.Block()] {
+								usedInside = true
+							} else {
+								usedAfter = true
+							}
+						}
+					}
+					if overwritten && usedAfter && !usedInside {
+						r.Fail("flagreduce", key, w.Pos(ph.Pos()), fmt.Sprintf("%s is assigned anew in every iteration and only read after the loop: the last element alone decides, whatever the earlier ones were", ph.Comment), nil)
+					} else {
+						r.OK("flagreduce", key, w.Pos(ph.Pos()), "accumulates, is constant-set, or is read inside the loop")
+					}
+				}
+			}
+		}
+	}
+	_ = scopeName
+	_ = n
+}
+
+
+// checkFDIndex: SubsetCFF keeps one font dictionary of the subset for every
+// font dictionary of the original that a retained glyph uses.  A font
+// dictionary is a private dictionary *and* (for CID-keyed fonts) a font
+// matrix; two old dictionaries may agree in one and differ in the other, so
+// they must not be merged: the new index recorded for an old index is always
+// the position at which that dictionary is appended.
+func checkFDIndex(w *World, r *Report) {
+	r.Rule("fdindex: in SubsetCFF the new font-dictionary index recorded for an old index is the length of the subset's Private list at the moment that dictionary is appended — a fresh index for every distinct old index, never the index of another dictionary that happens to compare equal")
+	fn := w.Func("(*sfnt.subsetter).SubsetCFF")
+	if fn == nil {
+		r.Fatal("(*sfnt.subsetter).SubsetCFF does not resolve")
+		return
+	}
+	n := 0
+	for _, b := range fn.Blocks {
+		for _, in := range b.Instrs {
+			mu, ok := in.(*ssa.MapUpdate)
+			if !ok {
+				continue
+			}
+			mt, ok := mu.Map.Type().Underlying().(*types.Map)
+			if !ok || !isIntType(mt.Key()) || !isIntType(mt.Elem()) {
+				continue
+			}
+			n++
+			key := r.MkKey("fdindex", fnName(fn), "new index of a font dictionary")
+			good := false
+			if c, ok := mu.Value.(*ssa.Call); ok {
+				if bi, ok := c.Call.Value.(*ssa.Builtin); ok && bi.Name() == "len" {
+					if ld, ok := c.Call.Args[0].(*ssa.UnOp); ok && fieldName(ld.X) == "Private" {
+						good = true
+					}
+				}
+			}
+			if good {
+				r.OK("fdindex", key, w.Pos(mu.Pos()), "the position at which the dictionary is appended")
+			} else {
+				r.Fail("fdindex", key, w.Pos(mu.Pos()), "the index recorded for an old font dictionary is not (only) the position where that dictionary is appended: two old dictionaries can end up sharing one new dictionary although they differ (e.g. in their font matrix)", nil)
+			}
+		}
+	}
+	r.Floor("fdindex", 1)
+	_ = n
 }
